@@ -280,6 +280,44 @@ theorem ofSamples_spec (seg : List Sample) (hne : seg ≠ []) (hs : SortedL seg)
     · omega
     · have := hsr.1 x hx; omega
 
+theorem ofSamples_range (seg : List Sample) (hne : seg ≠ []) (hs : SortedL seg) :
+    (Chunk.ofSamples seg).samples = seg ∧ (∃ a ∈ seg, (Chunk.ofSamples seg).mint = a.t) ∧
+      (∃ b ∈ seg, (Chunk.ofSamples seg).maxt = b.t) ∧
+      ∀ x ∈ seg, (Chunk.ofSamples seg).mint ≤ x.t ∧ x.t ≤ (Chunk.ofSamples seg).maxt := by
+  -- shift all timestamps? no: re-use `ofSamples_spec` on the same list; its `gt` hypothesis is only
+  -- needed for `ChunkOK.gt`, so prove the range facts directly from the definition
+  cases seg with
+  | nil => exact (hne rfl).elim
+  | cons s r =>
+    obtain ⟨b, hb, hbm⟩ : ∃ b, (s :: r).getLast? = some b ∧ b ∈ s :: r :=
+      ⟨_, List.getLast?_eq_some_getLast (by simp), List.getLast_mem _⟩
+    have hmax : (Chunk.ofSamples (s :: r)).maxt = b.t := by simp [Chunk.ofSamples, hb]
+    have hmin : (Chunk.ofSamples (s :: r)).mint = s.t := rfl
+    have hsr := List.pairwise_cons.1 hs
+    have hlast : ∀ (l : List Sample), SortedL l → ∀ b, l.getLast? = some b → ∀ x ∈ l, x.t ≤ b.t := by
+      intro l
+      induction l with
+      | nil => intro _ b h; simp at h
+      | cons a l ih =>
+        intro hsl b hb x hx
+        have hsl' := List.pairwise_cons.1 hsl
+        cases l with
+        | nil => simp at hb hx; subst hb; subst hx; omega
+        | cons a' l' =>
+          rw [List.getLast?_cons_cons] at hb
+          rcases List.mem_cons.1 hx with rfl | hx
+          · have h1 := ih hsl'.2 b hb a' (by simp)
+            have h2 := hsl'.1 a' (by simp)
+            omega
+          · exact ih hsl'.2 b hb x hx
+    refine ⟨rfl, ⟨s, by simp, hmin⟩, ⟨b, hbm, hmax⟩, ?_⟩
+    intro x hx
+    rw [hmin, hmax]
+    refine ⟨?_, hlast _ hs b hb x hx⟩
+    rcases List.mem_cons.1 hx with rfl | hx
+    · omega
+    · have := hsr.1 x hx; omega
+
 /-- re-encoding a strictly increasing sample list: well-formed, ordered, disjoint chunks holding
     exactly that list -/
 theorem encodeChunks_spec (xs : List Sample) (hs : SortedL xs) (hgt : ∀ x ∈ xs, MinI64 < x.t) :
@@ -319,20 +357,22 @@ theorem encodeChunks_spec (xs : List Sample) (hs : SortedL xs) (hgt : ∀ x ∈ 
 
 /-! ## the vertical merge, as the re-encoder reads it -/
 
-/-- `x` is `y` up to the counter-reset hint that `AtHistogram` may reset -/
-def Hm (x y : Sample) : Prop := x = y ∨ x = { y with payload := y.payload / 4 * 4 }
+/-- `x` is `y` up to the counter-reset hint that `AtHistogram` may reset (only for histograms whose
+    hint is not "gauge") -/
+def Hm (x y : Sample) : Prop :=
+  x = y ∨ (y.kind ≠ .float ∧ y.payload % 4 ≠ 3 ∧ x = { y with payload := y.payload / 4 * 4 })
 
 theorem Hm.t {x y : Sample} (h : Hm x y) : x.t = y.t := by
-  rcases h with rfl | rfl <;> rfl
+  rcases h with rfl | ⟨_, _, rfl⟩ <;> rfl
 
 theorem Hm.refl (x : Sample) : Hm x x := Or.inl rfl
 
 theorem Hm.trans {x y z : Sample} (h1 : Hm x y) (h2 : Hm y z) : Hm x z := by
-  rcases h1 with rfl | rfl
+  rcases h1 with rfl | ⟨k1, p1, rfl⟩
   · exact h2
-  · rcases h2 with rfl | rfl
-    · exact Or.inr rfl
-    · refine Or.inr ?_
+  · rcases h2 with rfl | ⟨k2, p2, rfl⟩
+    · exact Or.inr ⟨k1, p1, rfl⟩
+    · refine Or.inr ⟨k2, p2, ?_⟩
       show Sample.mk _ _ _ = Sample.mk _ _ _
       simp only [Sample.mk.injEq, true_and]
       omega
@@ -340,7 +380,8 @@ theorem Hm.trans {x y z : Sample} (h1 : Hm x y) (h2 : Hm y z) : Hm x z := by
 theorem atSample_hm (c : Chain) (s : Sample) : Hm (c.atSample s) s := by
   unfold Chain.atSample
   split
-  · exact Or.inr rfl
+  · rename_i h
+    exact Or.inr ⟨h.1, h.2.2, rfl⟩
   · exact Or.inl rfl
 
 theorem drainAux_hm : ∀ (fuel : Nat) (c : Chain) (raw out r o : List Sample),
